@@ -1,6 +1,7 @@
 //! `cvh <property> --tier quick|thorough [--seed N] [--widen] [--replay file]`
 //! Prints one JSON report on the last line of stdout.
 mod c01;
+mod c02;
 mod c03;
 mod c07;
 mod c10;
@@ -77,6 +78,7 @@ fn main() {
                 "C17" => c17::replay(&f["input"]),
                 "C20" => c20::replay(&f["input"]),
                 "C03" => c03::replay(&f["input"]),
+                "C02" => c02::replay(&f["input"]),
                 "C07" => c07::replay(&f["input"]),
                 "C10" => c10::replay(&f["input"]),
                 "C01" => c01::replay(&f["input"]),
@@ -119,6 +121,7 @@ fn main() {
         "C17" => c17::run(&tier, seed, widen),
         "C20" => c20::run(&tier, seed, widen),
         "C03" => c03::run(&tier, seed, widen),
+        "C02" => c02::run(&tier, seed, widen),
         "C07" => c07::run(&tier, seed, widen),
         "C10" => c10::run(&tier, seed, widen),
         "C01" => c01::run(&tier, seed, widen),
